@@ -227,7 +227,11 @@ def u_list_to_bytes_plumbing(E):
             continue
         ikw = log[0][2]
         E.prove(tag + '/writer-gets-exactly-the-callers-options', z3.BoolVal(set(ikw) == set(opts) and all(ikw[k] is opts[k] for k in opts)), 'P')
-        E.prove(tag + '/records-in-order', z3.BoolVal(log[1][1][1] is r1 and log[2][1][1] is r2), 'P')
+        for k, (got, want) in enumerate(((log[1][1][1], r1), (log[2][1][1], r2))):
+            if isinstance(got, VSeq) and got.kind == 'bytes':
+                E.prove_value_eq('%s/record-%d-written-as-given' % (tag, k), got, want, 'P')
+            else:
+                E.prove('%s/record-%d-written-as-given' % (tag, k), False, 'P')
         E.prove_value_eq(tag + '/returns-the-finalised-file', out, FINAL, 'P')
 
 
@@ -272,4 +276,12 @@ def u_bytes_to_list_plumbing(E):
         ikw = log[0][2]
         E.prove(tag + '/reader-gets-exactly-the-callers-options', z3.BoolVal(set(ikw) == set(opts) and all(ikw[k] is opts[k] for k in opts)), 'P')
         got = E.list_val(out) if isinstance(out, VRef) else out
-        E.prove(tag + '/returns-the-records-the-reader-yields-in-order', z3.BoolVal(isinstance(got, VSeq) and got.clen() == 2 and got.at(z3.IntVal(0)) is r1 and got.at(z3.IntVal(1)) is r2), 'P')
+        ok2 = isinstance(got, VSeq) and got.clen() == 2
+        E.prove(tag + '/returns-as-many-records-as-the-reader-yields', z3.BoolVal(ok2), 'P')
+        if ok2:
+            for k, want in enumerate((r1, r2)):
+                g = got.at(z3.IntVal(k))
+                if isinstance(g, VSeq) and g.kind == 'bytes':
+                    E.prove_value_eq('%s/record-%d-returned-as-yielded' % (tag, k), g, want, 'P')
+                else:
+                    E.prove('%s/record-%d-returned-as-yielded' % (tag, k), False, 'P')
